@@ -33,6 +33,7 @@ type aeCfg struct {
 	Ranges  bool // declare valuesRange [0,2]
 	Extra   bool // one known, not considered alternative zz with value 3 on every criterion (widens the observed range)
 	Reverse bool // choseToMake / knownAlternatives listed in descending id order
+	Mixed   bool // only the LAST criterion declares its valuesRange [0,2]; the others are left to the observed range
 	Narrow  bool // declare a valuesRange that the values exceed on the bad side: gain [1,2], cost [0,1] (values are in {0,1,2})
 }
 
@@ -50,7 +51,13 @@ func aeRequest(cfg aeCfg) M {
 	var crits L
 	w := M{}
 	for j, id := range cids {
-		if cfg.Narrow && cfg.Types[j] == "cost" {
+		if cfg.Mixed {
+			if j == len(cids)-1 {
+				crits = append(crits, critR(id, cfg.Types[j], 0, 2))
+			} else {
+				crits = append(crits, crit(id, cfg.Types[j]))
+			}
+		} else if cfg.Narrow && cfg.Types[j] == "cost" {
 			crits = append(crits, critR(id, cfg.Types[j], 0, 1))
 		} else if cfg.Narrow {
 			crits = append(crits, critR(id, cfg.Types[j], 1, 2))
@@ -437,6 +444,11 @@ func aeEnumerate(s *Shard, prop string, fn func(c *Case)) {
 							}
 						}
 						fn(&Case{Prop: prop, Kind: "aspect", Req: aeRequest(cfg)})
+						if spec.Fn != "thresholds" && g.n <= 3 && si%2 == 1 {
+							mc := cfg
+							mc.Mixed, mc.Ranges = true, false
+							fn(&Case{Prop: prop, Kind: "aspect", Req: aeRequest(mc)})
+						}
 						if cfg.Extra && g.n <= 3 {
 							// the never-considered alternative that widens the observed range has an id that sorts FIRST
 							fn(&Case{Prop: prop, Kind: "aspect", Req: renameIDs(aeRequest(cfg), map[string]string{"zz": "0a"})})
@@ -482,7 +494,7 @@ func aeLong(s *Shard, prop string, fn func(c *Case)) {
 				if !s.Take() {
 					return
 				}
-				vals := [][]float64{{lv[idx[0]], 1}, {lv[idx[1]], 1}, {lv[idx[2]], 1}}
+				vals := [][]float64{{lv[idx[0]], 3}, {lv[idx[1]], 3}, {lv[idx[2]], 3}} // the second criterion never decides (everybody at its best value)
 				cfg := aeCfg{N: 3, Vals: vals, Types: []string{typ, "gain"}, Weights: []float64{2, 1}, Spec: spec, Extra: true}
 				fn(&Case{Prop: prop, Kind: "aspect", Req: aeRequest(cfg)})
 			})
